@@ -12,13 +12,12 @@
   whole message (compressed or not).
 
   This is the soundness half of `links = Spec.links items` that does not depend on the shape of the
-  template (no `Spec.WFbitmap` needed): whatever the walk links a value to is an element that
-  precedes a bit-map operator preceding the value ("the element descriptors that precede the operator").  Still missing for the full statement: that the owner is exactly the
-  k-th zero-bit candidate of the governing definition as `Spec.links` finds it in the finished item
-  list (needs the invariant tying `bitmapDef / n031031 / backBoundary / bmIter / qa` to
-  `Spec.defAt`, `Spec.establishing`, `Spec.owner?` on the item prefix), and completeness (every
-  marker / class 33 value after 222000 gets a link: immediate from `C07_link_targets_are_zero_bits`
-  and `C07_qa_link_targets_are_zero_bits` per step, not yet stated for the walk).
+  template (no well-formedness predicate needed): whatever the walk links a value to is an element that
+  precedes a bit-map operator preceding the value ("the element descriptors that precede the operator").
+  The FULL statement — the owner is exactly the k-th zero-bit candidate of the governing definition as
+  `Spec.links` finds it in the finished item list, and every marker / class 33 value after 222000 gets a
+  link — is `C07_links_eq_spec` / `C07_links_complete` in Props/C07Spec.lean, for templates satisfying
+  `Spec.WFlinks`; the `_partial` theorems below remain the statement for templates outside it.
 -/
 import BufrModel.Lemmas.LinkInv
 import BufrModel.Props.C07Subsets
@@ -35,7 +34,8 @@ example : Quiet decPrimsU ∧ QuietRef decPrimsU ∧ Quiet decPrimsC ∧ QuietRe
     LinkInv { bits := [true], vals := [[]] } :=
   ⟨decPrimsU_quiet, decPrimsU_quietRef, decPrimsC_quiet, decPrimsC_quietRef, LinkInv.init _ rfl rfl rfl rfl rfl rfl⟩
 
-/-- PARTIAL (soundness half of `C07_links_eq_spec`; see the file header for what is missing).
+/-- PARTIAL (soundness half of `C07_links_eq_spec`, but for ANY template; the full equality needs `Spec.WFlinks`:
+    Props/C07Spec.lean).
     Every link `(a, o)` reported for a decoded subset — ANY template — names a plain element item `o`
     that lies in front of the item `p` of a bit-map operator, which in turn lies in front of the value:
     `o < p < a`.  A value is only ever attached to an element that precedes a 22X000 / 232000 operator
